@@ -1,6 +1,7 @@
 """Slots shared by several rules, filled from the repository by name."""
 from sa import absval as av
 from sa.ps import Tracker, INT_TYPES
+from sa.ir import strip
 
 K_FLAGS = ("F", "ssl", "flags")
 K_ERR = ("F", "ssl", "err")
@@ -47,3 +48,144 @@ def fmt_state(prog, state, keys=None):
         elif k[0] == "E":
             out.append("%s=%s" % (k[1], v))
     return ", ".join(out)
+
+
+# ---------------------------------------------------------------------------
+# Generic "success exit is dominated by a tested call result" rule
+def classify(val):
+    """Class of a refined call result: zero / pos / neg / nonneg / nonzero / unk."""
+    if val is av.TOP:
+        return "unk"
+    if av.is_const(val) == 0:
+        return "zero"
+    sg = av.signs_of(val)
+    if sg == frozenset((1,)):
+        return "pos"
+    if sg == frozenset((-1,)):
+        return "neg"
+    if 0 not in sg:
+        return "nonzero"
+    if -1 not in sg:
+        return "nonneg"
+    return "unk"
+
+
+class TagTracker(Tracker):
+    """Tracks integer locals plus the typestate of selected call results.
+
+    tags: {tag: set(function names)}  direct calls
+    slot_tags: {tag: slot}            calls through a function-pointer slot
+    The typestate E:tag is 'untested' after the call and becomes the class of the
+    refined value (see classify) once a branch tests the result.
+    """
+
+    def __init__(self, prog, cg, tags=None, slot_tags=None, keys=()):
+        super().__init__()
+        self.prog = prog
+        self.cg = cg
+        self.tags = tags or {}
+        self.slot_tags = slot_tags or {}
+        self.keys = set(keys)
+        self.rets = []
+        self.calls = None
+        self.stores = None
+        self._byname = {}
+        for t, names in self.tags.items():
+            for n in names:
+                self._byname[n] = t
+        self.event_fns = set(self._byname)
+
+    def track_local(self, fn, var):
+        t = var.get("t", "")
+        return t in INT_TYPES or t.endswith("*")
+
+    def call_tag(self, ps, node):
+        n = node.get("fn")
+        if n is not None:
+            return self._byname.get(n)
+        if "fp" in node and self.slot_tags:
+            slot, names = self.cg.resolve_indirect(ps.fn, node)
+            for t, sl in self.slot_tags.items():
+                if slot == sl:
+                    return t
+        return None
+
+    def after_call(self, ps, node, state, val):
+        t = self.call_tag(ps, node)
+        if t is not None:
+            state = dict(state)
+            state[("E", t)] = "untested"
+        return state
+
+    def on_tag_refine(self, ps, tag, val, state):
+        state = dict(state)
+        state[("E", tag)] = classify(val)
+        return state
+
+    def join_event(self, key, a, b):
+        return a if a == b else "mixed"
+
+    def visit_ret(self, ps, block, node, state, val):
+        self.rets.append((ps, block, node, dict(state), val, ps.cur_in))
+
+    def visit_call(self, ps, block, node, state, argvals):
+        if self.calls is not None:
+            self.calls.append((ps, block, node, dict(state), argvals, ps.cur_in))
+
+    def visit_store(self, ps, block, node, key, val, state):
+        if self.stores is not None:
+            self.stores.append((ps, block, node, key, val, dict(state), ps.cur_in))
+
+
+def ret_line(block, node):
+    for el in block["el"]:
+        if el["x"] is node:
+            return el["ln"]
+    return None
+
+
+def dominated_success(res, prop, rid, eng, tr, fn, success, tag, accept, what, floor_sites=1):
+    """Obligation: every exit of fn whose return value may satisfy `success`
+    (a predicate over the abstract value) is reached only in valuations whose
+    typestate E:tag is in `accept`.  One instance per return site."""
+    from sa.report import Finding
+    tr.rets = []
+    run_ = eng.analyze(fn)
+    per = {}
+    for (ps, block, node, state, val, cur_in) in tr.rets:
+        if not success(val):
+            continue
+        ln = ret_line(block, node)
+        ent = per.setdefault(block["id"], {"ln": ln, "n": 0, "bad": None, "vals": set()})
+        ent["n"] += 1
+        ent["vals"].add(av.show(val))
+        ts = state.get(("E", tag))
+        # idiom: `return prim(...)` hands the untested result to the caller unchanged (the
+        # caller's own obligation covers it)
+        rx = strip(node.get("e")) if "e" in node else None
+        passthrough = rx is not None and rx.get("k") == "call" and tr.call_tag(ps, rx) == tag
+        if ts not in accept and not passthrough and ent["bad"] is None:
+            ent["bad"] = (ts, state, cur_in, ps)
+    for bid, ent in sorted(per.items()):
+        f = None
+        if ent["bad"]:
+            ts, state, cur_in, ps = ent["bad"]
+            f = Finding(prop, rid, fn.name, "success exit not dominated by %s" % what,
+                        "%s returns %s on a path where %s was not established (typestate %s)" % (
+                            fn.name, ",".join(sorted(ent["vals"])), what, ts),
+                        file=fn.relfile, line=ent["ln"],
+                        path=ps.describe_path(ps.path_to(cur_in[0], cur_in[1])))
+        res.instance(rid, "%s: success exit at %s:%s (%d valuations) requires %s" % (
+            fn.name, fn.relfile, ent["ln"], ent["n"], what), ent["bad"] is None, finding=f)
+    if len(per) < floor_sites:
+        from sa.build import AnalysisBroken
+        raise AnalysisBroken("%s: %s has no success exit any more" % (rid, fn.name))
+    return run_
+
+
+def nonneg_possible(val):
+    return val is av.TOP or bool(av.signs_of(val) & frozenset((0, 1)))
+
+
+def zero_possible(val):
+    return av.possible_value(val, 0)
